@@ -1753,6 +1753,12 @@ class PSBTOut:
                         )
                     )
         elif self.witness_script:
+            # a WitnessScript only makes sense on a p2wsh or p2sh-p2wsh output
+            if self.redeem_script:
+                if not script_pubkey.is_p2sh() or not self.redeem_script.is_p2wsh():
+                    raise ValueError("WitnessScript provided for non-p2wsh output")
+            elif not script_pubkey.is_p2wsh():
+                raise ValueError("WitnessScript provided for non-p2wsh output")
             if self.redeem_script:
                 h160 = script_pubkey.commands[1]
                 if self.redeem_script.hash160() != h160:
